@@ -333,7 +333,7 @@ pub mod pipeline {
             drop(tx);
             match t.join() {
                 Ok(_) => (),
-                Err(e) => println!("Error: {:?}", e),
+                Err(e) => eprintln!("Error: {:?}", e),
             }
         }
 
